@@ -137,11 +137,17 @@ Theorem C09_total_robust :
 Proof. exact total_robust. Qed.
 Print Assumptions C09_total_robust.
 
-(* Headline: if no organism's expected offspring is negative, then whenever the float chain does not
+(* Headline: if every organism's expected offspring is a finite number in [0, 2^52) (as float
+   comparisons: 0 <= e and e < 2^52; this excludes NaN and the infinities), then whenever the float chain does not
    overshoot (T <= n; in exact arithmetic T = n, C09_total_exact) the quotas of Population.Species
    total exactly the number of organisms; if it overshoots they total T (this is the one
    float-dependent case, monitored on the implementation by the harness key quota-total).  Kept
-   species have positive quotas, dropped ones none. *)
+   species have positive quotas, dropped ones none.
+   "Not below zero" is not enough: int(math.Floor(e)) for e = NaN, +Inf or e >= 2^63 is math.MinInt64
+   on amd64 (F64.f_trunc_Z, platform assumption "amd64-cvttsd2sq"; C09_ex_nan_quota below), the
+   species' quota becomes negative and the recorded finding fitness-overflow-quota-panic follows.
+   Below 2^52 Floor, Mod(.,1) and the conversion are exact (QuotaFloatSumA.v); finite fitness values
+   >= 0 give expected offspring in [0, 2n] (C09_expected_offspring_convertible). *)
 Theorem C09_quotas_total_population_size :
   forall p p' orgs sps T,
     purge_zero_offspring p = Ok p' ->
@@ -149,7 +155,7 @@ Theorem C09_quotas_total_population_size :
     count_all (p_heap p') (p_species p) 0%float 0 = Ok (sps, T) ->
     p_species p <> [] -> NoDup (map sp_id (p_species p)) ->
     (forall s k x, In s (p_species p) -> In k (sp_orgs s) -> hget (p_heap p') k = Ok x ->
-                   PrimFloat.ltb (o_exp x) 0%float = false) ->
+                   PrimFloat.leb 0%float (o_exp x) = true /\ PrimFloat.ltb (o_exp x) 0x1p+52%float = true) ->
     (T <= zlen orgs -> sp_sum (p_species p') = zlen orgs) /\
     (zlen orgs < T -> sp_sum (p_species p') = T) /\
     (forall s, In s (p_species p') -> 0 < sp_exp s) /\
@@ -355,7 +361,8 @@ From NeatModel Require FloatMonoQuota.
 
 (* ExpectedOffspring is never negative when no fitness value is.  "Not below zero" is
    [PrimFloat.ltb x 0 = false] (zeros, positive finite numbers, +infinity, NaN): it follows from
-   "finite and >= 0" and is what countOffspring needs.  The sum of such floats is not below zero
+   "finite and >= 0".  (It is NOT what countOffspring needs - NaN and +Inf convert to math.MinInt64 -
+   see C09_expected_offspring_convertible for the statement that is.)  The sum of such floats is not below zero
    (possibly +infinity), so is the average, and a fitness divided by a non-zero average is not below
    zero (an average of +infinity gives 0, or NaN for an infinite fitness).  When the average is zero
    the code leaves ExpectedOffspring as it was, whence the last hypothesis. *)
@@ -381,10 +388,32 @@ Theorem C09_nonneg_is_not_negative :
 Proof. exact FloatMonoQuota.leb0_not_lt0. Qed.
 Print Assumptions C09_nonneg_is_not_negative.
 
+(* ExpectedOffspring is convertible when the fitness values are FINITE and >= 0: with at most 2^31
+   organisms and a non-zero average every fitness / average is a finite float in [0, 2n] - in
+   particular 0 <= e < 2^52 - whatever the magnitude of the values (subnormal numbers and overflow of
+   the sum to +infinity included: fitness / +Inf = 0).  The float sum is at least every term; the
+   average a = round(S/n) satisfies S/n <= 2a because doubling is exact and rounding is monotone;
+   hence fitness/a <= 2n, which is a float.  Without finiteness the statement fails: +Inf / +Inf = NaN. *)
+Theorem C09_expected_offspring_convertible :
+  forall p p' orgs,
+    purge_zero_offspring p = Ok p' ->
+    hgets (p_heap p) (p_orgs p) = Ok orgs ->
+    1 <= zlen orgs <= 2 ^ 31 ->
+    (forall y, In y orgs -> PrimFloat.leb 0%float (o_fit y) = true /\ PrimFloat.ltb (o_fit y) infinity = true) ->
+    (PrimFloat.eqb (PrimFloat.div (fold_left (fun acc x => PrimFloat.add acc (o_fit x)) orgs 0%float) (f_of_Z (zlen orgs))) 0%float = true ->
+     forall k x, In k (p_orgs p) -> hget (p_heap p) k = Ok x ->
+                 PrimFloat.leb 0%float (o_exp x) = true /\ PrimFloat.ltb (o_exp x) 0x1p+52%float = true) ->
+    forall k x, In k (p_orgs p) -> hget (p_heap p') k = Ok x ->
+                PrimFloat.leb 0%float (o_exp x) = true /\ PrimFloat.ltb (o_exp x) 0x1p+52%float = true.
+Proof. exact FloatMonoQuota.purge_zero_exp_conv. Qed.
+Print Assumptions C09_expected_offspring_convertible.
+
 (* The headline C09_quotas_total_population_size with the hypothesis on the FITNESS values (as they
    are after adjustFitness) instead of the one on ExpectedOffspring: species members belong to
-   Population.Organisms, no organism's fitness is below zero, and, for the case of a zero average
-   (in which the code does not write ExpectedOffspring), the old values are not below zero. *)
+   Population.Organisms, there are at most 2^31 organisms, every fitness value is finite and >= 0, and,
+   for the case of a zero average (in which the code does not write ExpectedOffspring), the old values
+   are finite in [0, 2^52).  (Formerly stated for fitness "not below zero", which admits NaN and +Inf;
+   that was true of the totalised int(x) only: see C09_ex_nan_quota.) *)
 Theorem C09_quotas_total_population_size_from_fitness :
   forall p p' orgs sps T,
     purge_zero_offspring p = Ok p' ->
@@ -392,9 +421,11 @@ Theorem C09_quotas_total_population_size_from_fitness :
     count_all (p_heap p') (p_species p) 0%float 0 = Ok (sps, T) ->
     p_species p <> [] -> NoDup (map sp_id (p_species p)) ->
     (forall s k, In s (p_species p) -> In k (sp_orgs s) -> In k (p_orgs p)) ->
-    (forall y, In y orgs -> PrimFloat.ltb (o_fit y) 0%float = false) ->
+    1 <= zlen orgs <= 2 ^ 31 ->
+    (forall y, In y orgs -> PrimFloat.leb 0%float (o_fit y) = true /\ PrimFloat.ltb (o_fit y) infinity = true) ->
     (PrimFloat.eqb (PrimFloat.div (fold_left (fun acc x => PrimFloat.add acc (o_fit x)) orgs 0%float) (f_of_Z (zlen orgs))) 0%float = true ->
-     forall k x, In k (p_orgs p) -> hget (p_heap p) k = Ok x -> PrimFloat.ltb (o_exp x) 0%float = false) ->
+     forall k x, In k (p_orgs p) -> hget (p_heap p) k = Ok x ->
+                 PrimFloat.leb 0%float (o_exp x) = true /\ PrimFloat.ltb (o_exp x) 0x1p+52%float = true) ->
     (T <= zlen orgs -> sp_sum (p_species p') = zlen orgs) /\
     (zlen orgs < T -> sp_sum (p_species p') = T) /\
     (forall s, In s (p_species p') -> 0 < sp_exp s) /\
@@ -430,12 +461,22 @@ Print Assumptions C09_expected_offspring_proper.
 Example C09_ex_from_fitness_hyps :
   match hgets (p_heap ex_pop3) (p_orgs ex_pop3) with
   | Ok orgs =>
+    Z.leb 1 (zlen orgs) && Z.leb (zlen orgs) (2 ^ 31) &&
     forallb (fun y => negb (PrimFloat.ltb (o_fit y) 0) && PrimFloat.leb 0 (o_fit y) && PrimFloat.ltb (o_fit y) infinity) orgs &&
     negb (PrimFloat.eqb (PrimFloat.div (fold_left (fun acc x => PrimFloat.add acc (o_fit x)) orgs 0%float) (f_of_Z (zlen orgs))) 0) &&
     forallb (fun s => forallb (fun k => existsb (Z.eqb k) (p_orgs ex_pop3)) (sp_orgs s)) (p_species ex_pop3) &&
     negb (Nat.eqb (length (p_species ex_pop3)) 0)
   | _ => false end = true.
 Proof. vm_compute. reflexivity. Qed.
+
+(* "not below zero" does not suffice for the headline: a member whose expected offspring is NaN, +Inf
+   or 2^63 makes its species' quota math.MinInt64 (amd64 conversion, F64.f_trunc_Z) *)
+Example C09_ex_nan_quota :
+  PrimFloat.ltb PrimFloat.nan 0%float = false /\ PrimFloat.ltb infinity 0%float = false /\
+  fst (count_offspring_gen float_qnum [PrimFloat.nan] 0 0%float) = - 2 ^ 63 /\
+  fst (count_offspring_gen float_qnum [infinity] 0 0%float) = - 2 ^ 63 /\
+  fst (count_offspring_gen float_qnum [0x1p+63%float] 0 0%float) = - 2 ^ 63.
+Proof. exact count_offspring_nan_negative. Qed.
 
 (* ============================================================================================ *)
 (* agent-quota: the float-level overshoot hypothesis "T <= n" — refuted for subnormal fitness     *)
